@@ -5,8 +5,8 @@ Everything else in C06 quantifies over schedules of an external actor and is not
 import re
 
 from . import C02
-from .lib import decision, paths
-from .lib.mir import AnchorLost
+from .lib import decision, guards, paths
+from .lib.mir import AnchorLost, Call
 
 CONFIGS_QUICK = ["A"]
 CONFIGS_THOROUGH = ["A", "R", "ASYNCSTD", "SMOL", "NIO", "GLOMMIO"]
@@ -139,6 +139,45 @@ def c06c(ck, prog):
           "" if ok else "Request::read fills its buffer with a single stream.read(..) and parses whatever that one call returned: a request head that arrives in two segments "
           "(`GET /a HT` + `TP/1.1\\r\\n..`) is answered 505/400 instead of being parsed like the unsplit head",
           how="the stream read sits in a loop (header bb%s) that ends when the head is complete" % (around[0] if around else "-"))
+    # (c') the search for the end of the head looks at every window that can hold it: over buf[..received], or from a resume
+    # offset that keeps at least (terminator length - 1) of the bytes searched before
+    for w in [c for c in f.calls() if c.name in ("windows",) and len(c.args) > 1]:
+        k = guards.const_int(f.origin(w.args[1])[-1][1]) if f.origin(w.args[1]) and f.origin(w.args[1])[-1][0] == "const" else None
+        st = f.origin(w.args[0])
+        ix = st[-1][1] if st and st[-1][0] == "call" else None
+        if ix is None or ix.name not in ("index", "get_unchecked") or len(ix.args) < 2 or "__buf__" not in decision.describe_deep(f, ix.args[0], 4):
+            continue
+        rs = f.origin(ix.args[1])
+        okw, why = True, "searches buf[..received]"
+        if rs and rs[-1][0] == "agg" and re.search(r"ops::range::Range$", rs[-1][1][1].get("adt", "") or ""):
+            start = f.origin(rs[-1][1][2][0])
+            defs = []
+            if start and start[-1][0] == "multi":
+                for (dbb, si, dk, payload) in f.defs().get(start[-1][1], []):
+                    if f.is_cleanup(dbb):
+                        continue
+                    if dk == "assign" and payload["r"][0] == "use":
+                        defs.append(f.origin(payload["r"][1]))
+                    elif dk == "call":
+                        defs.append([("call", Call(f, dbb, payload, False), [])])
+                    else:
+                        defs.append(None)
+            else:
+                defs = [start]
+            for d in defs:
+                if d and d[-1][0] == "const" and guards.const_int(d[-1][1]) == 0:
+                    continue
+                if d and d[-1][0] == "call" and d[-1][1].name in ("saturating_sub", "wrapping_sub", "checked_sub") and len(d[-1][1].args) > 1:
+                    back = f.origin(d[-1][1].args[1])
+                    kb = guards.const_int(back[-1][1]) if back and back[-1][0] == "const" else None
+                    if kb is not None and k is not None and kb >= k - 1:
+                        continue
+                    okw, why = False, "resumes %s byte(s) before the bytes already searched, but a terminator of %s bytes can begin up to %s bytes before them" % (kb, k, (k - 1) if k else "?")
+                    continue
+                okw, why = False, "starts at an offset this rule cannot bound (%s)" % (guards.describe_origin(f, d) if d else "?")
+        ck.ob("C06-c MUSTPASS head complete", "head-end-search:covers-every-window", okw, f.loc(w.sp),
+              "" if okw else "the search for the end of the head %s: when `\\r\\n\\r` ends one read and `\\n` starts the next, the end is never found and the request is not answered" % why,
+              how=why)
     # (d) the number of valid bytes at the start of a parse comes from state kept across requests, not from 0
     ext = [c for c in f.calls() if c.name in ("index", "get_unchecked", "get") and len(c.args) > 1 and "__buf__" in decision.describe_deep(f, c.args[0], 4)
            and f.dominates(c.bb, parse[0].bb)]
